@@ -42,7 +42,8 @@ def gen_cases(ctx, n):
             cases.append({'ops': G.shared_program(ctx.rng), 'share': True})
         elif r < 0.84:
             ks = ctx.rng.sample(LABELS, ctx.rng.randint(0, 6))
-            cases.append({'dict': 'metadata', 'entries': [[k, ctx.rng.choice([0, 1, 24, 2**32, -1, -2**63])] for k in ks]})
+            # label values: integers or nested containers (a list of integers); the nested ones are what a deep copy must not share
+            cases.append({'dict': 'metadata', 'entries': [[k, ctx.rng.choice([0, 1, 24, 2**32, -1, -2**63, [1, 2], [], [24, [7]]])] for k in ks]})
         elif r < 0.88:
             ks = ctx.rng.sample(ADDRS, ctx.rng.randint(0, 6))
             cases.append({'dict': ctx.rng.choice(['withdrawals', 'treasury']),
@@ -72,7 +73,9 @@ def dict_kvs(c):
     """entries of a dict case as Coq (key primitive, value primitive) literals"""
     k = c['dict']
     if k == 'metadata':
-        return [G.cpair(f'cint {G.cz(a)}', f'cint {G.cz(v)}') for a, v in c['entries']]
+        def md(v):
+            return f'cint {G.cz(v)}' if isinstance(v, int) else 'CA ' + G.clist([md(x) for x in v])
+        return [G.cpair(f'cint {G.cz(a)}', md(v)) for a, v in c['entries']]
     if k in ('withdrawals', 'treasury'):
         return [G.cpair(f'CB {G.chx(bytes.fromhex(a))}', f'cint {G.cz(v)}') for a, v in c['entries']]
     if k == 'redeemers':
@@ -91,7 +94,7 @@ def render(part):
     for i, c, r in part:
         if 'dict' in c:
             kvs = G.clist(dict_kvs(c))
-            dicts.append(f'({i}%nat, ({kvs}, {G.clist([G.chx(bytes.fromhex(r[x])) for x in ("cbor", "cbor2", "rt", "cbor3", "cbor4")])}))')
+            dicts.append(f'({i}%nat, ({kvs}, {G.clist([G.chx(bytes.fromhex(r[x])) for x in ("cbor", "cbor2", "rt", "cbor3", "cbor4", "cbor5")])}))')
         else:
             cb = G.clist([G.chx(bytes.fromhex(x)) for x in r['cbor']])
             rt = 'None'
